@@ -13,7 +13,9 @@ for d in "${dirs[@]}"; do
     git -C /repo apply "$PWD/$d/patch.diff"
   fi
   if ! grep -q "\"$prop\"" engine/cmd/verif/defs.go; then echo "$d ($prop): no check yet"; git -C /repo reset -q --hard HEAD; continue; fi
+  cp evidence/$prop.json /tmp/.mut_evidence_$prop.json 2>/dev/null   # the committed evidence describes the unchanged tree
   out=$(timeout 1200 bin/verif check $prop --tier ${TIER:-quick} 2>&1); rc=$?
+  [ -f /tmp/.mut_evidence_$prop.json ] && mv /tmp/.mut_evidence_$prop.json evidence/$prop.json
   v=$(echo "$out" | grep -c "^VIOLATION")
   echo "$d ($prop): exit=$rc violations=$v $(echo "$out" | grep -m1 "^  harness=" )"
   [ -n "$VERBOSE" ] && echo "$out" | tail -15
